@@ -181,18 +181,6 @@ func (j *join[T]) handleSubCollectionEvents(events []Event[T], sourceCollectionI
 		return
 	}
 
-	// Update processedState to track what we've processed
-	// This is used by RegisterBatch to provide consistent initial state
-	for _, ev := range refreshedEvents {
-		key := GetKey(ev.Latest())
-		if ev.Event == controllers.EventDelete {
-			delete(j.processedState, key)
-		} else {
-			// For Add and Update, store the new object pointer (no copy)
-			j.processedState[key] = ev.New
-		}
-	}
-
 	j.eventHandlers.Distribute(refreshedEvents, !j.HasSynced())
 }
 
@@ -218,77 +206,54 @@ func (j *join[T]) getFromColIdx(idx int, key string) *T {
 
 // refreshEvents refreshes events by checking the current state of all collections
 // to determine which collection is authoritative for each key. This implements
-// conflict resolution without storing objects.
+// conflict resolution. What handlers are told is always relative to what they were told
+// last for the key (processedState): the other collections are consulted through their
+// live state, which may be ahead of (or behind) the events we have received from them, so
+// translating each event on its own would yield duplicate adds, updates for keys never
+// added, or an Old that was never delivered.
 func (j *join[T]) refreshEvents(events []Event[T], sourceCollectionIdx int) []Event[T] {
 	var result []Event[T]
 
 	for _, ev := range events {
 		key := GetKey(ev.Latest())
 
-		// Check if any higher-priority collection (0...sourceCollectionIdx-1) has this key
-		hasHigherPriority := false
-
-		for i := range sourceCollectionIdx {
-			if o := j.getFromColIdx(i, key); o != nil {
-				hasHigherPriority = true
+		// Find the authoritative object for the key: the one of the first collection that has it.
+		// For the collection the event comes from, the event itself tells whether it has the key.
+		var cur *T
+		for i := range j.collections {
+			if i == sourceCollectionIdx {
+				if ev.Event != controllers.EventDelete {
+					cur = ev.New
+					break
+				}
+				continue
+			}
+			if obj := j.getFromColIdx(i, key); obj != nil {
+				cur = obj // pointer from collection, not a copy!
 				break
 			}
 		}
 
-		if ev.Event == controllers.EventDelete {
-			if hasHigherPriority {
-				// Drop delete event - we weren't using this collection's version anyway
-				continue
-			}
-
-			// Collection sourceCollectionIdx was authoritative. Check for fallback in lower-priority collections.
-			var fallbackObj *T
-			for i := sourceCollectionIdx + 1; i < len(j.collections); i++ {
-				if obj := j.getFromColIdx(i, key); obj != nil {
-					fallbackObj = obj
-					break
-				}
-			}
-
-			if fallbackObj != nil {
-				// Convert DELETE to UPDATE - fallback to lower-priority collection's version
-				result = append(result, Event[T]{
-					Event: controllers.EventUpdate,
-					Old:   ev.Old,
-					New:   fallbackObj, // pointer from collection, not a copy!
-				})
-			} else {
-				// No fallback found, send DELETE
-				result = append(result, ev)
-			}
+		prev := j.processedState[key]
+		switch {
+		case prev == nil && cur == nil:
+			// Nothing known, nothing there (e.g. delete in a collection that was not authoritative)
+			continue
+		case prev == nil:
+			result = append(result, Event[T]{Event: controllers.EventAdd, New: cur})
+		case cur == nil:
+			result = append(result, Event[T]{Event: controllers.EventDelete, Old: prev})
+		case Equal(*prev, *cur):
+			// The authoritative object did not change (e.g. the event is from a lower-priority collection)
+			continue
+		default:
+			result = append(result, Event[T]{Event: controllers.EventUpdate, Old: prev, New: cur})
+		}
+		// Track what we've told handlers; also used by RegisterBatch to provide consistent initial state
+		if cur == nil {
+			delete(j.processedState, key)
 		} else {
-			// ADD or UPDATE event
-			if hasHigherPriority {
-				// Drop event - higher priority collection owns this key
-				continue
-			}
-
-			// No higher-priority collection has it, so this collection is now authoritative
-			// Check if a lower-priority collection had this key before
-			var oldObj *T
-			for i := sourceCollectionIdx + 1; i < len(j.collections); i++ {
-				if obj := j.getFromColIdx(i, key); obj != nil {
-					oldObj = obj
-					break
-				}
-			}
-
-			if oldObj != nil && ev.Event == controllers.EventAdd {
-				// Convert ADD to UPDATE - we're replacing a lower-priority collection's version
-				result = append(result, Event[T]{
-					Event: controllers.EventUpdate,
-					Old:   oldObj,
-					New:   ev.New,
-				})
-			} else {
-				// Forward the event as-is
-				result = append(result, ev)
-			}
+			j.processedState[key] = cur
 		}
 	}
 
@@ -326,14 +291,21 @@ func (j *join[T]) dump() CollectionDump {
 // nolint: unused // (not true)
 type joinIndexer[T any] struct {
 	indexers []indexer[T]
+	// shadowed reports whether the object, found in the collection with the given position, is hidden by the object
+	// of the same key of an earlier collection. nil when keys cannot overlap.
+	shadowed func(collectionIdx int, o T) bool
 }
 
 // nolint: unused // (not true)
 func (j joinIndexer[T]) Lookup(key string) []T {
 	var res []T
 	first := true
-	for _, i := range j.indexers {
+	for idx, i := range j.indexers {
 		l := i.Lookup(key)
+		if j.shadowed != nil && idx > 0 {
+			// Only the first collection that has a key contributes it, as in List() and GetKey()
+			l = slices.FilterInPlace(slices.Clone(l), func(o T) bool { return !j.shadowed(idx, o) })
+		}
 		if len(l) > 0 && first {
 			// Optimization: re-use the first returned slice
 			res = l
@@ -348,6 +320,17 @@ func (j joinIndexer[T]) Lookup(key string) []T {
 // nolint: unused // (not true, its to implement an interface)
 func (j *join[T]) index(name string, extract func(o T) []string) indexer[T] {
 	ji := joinIndexer[T]{indexers: make([]indexer[T], 0, len(j.collections))}
+	if !j.uncheckedOverlap {
+		ji.shadowed = func(collectionIdx int, o T) bool {
+			key := GetKey(o)
+			for i := range collectionIdx {
+				if j.getFromColIdx(i, key) != nil {
+					return true
+				}
+			}
+			return false
+		}
+	}
 	for _, c := range j.collections {
 		ji.indexers = append(ji.indexers, c.index(name, extract))
 	}
